@@ -14,6 +14,8 @@ struct Case {
     std::vector<double> tension, bending;  // per face type
     double bulk = 1, area_mod = 0, iso_ratio = 150, angle_reg = 0, vt_factor = 1.2, max_pressure = 1e300;
     double q[4] = {1, 0, 0, 0}, tr[3] = {0, 0, 0};  // rigid motion for the covariance clause
+    unsigned rough = 0;  // != 0: the cell first undergoes real edge collapses / splits that leave unused node and face slots (the state of
+                         // most cells in a running simulation); the covariance clause is then skipped (it needs two identically built cells)
     std::string shape;
     void write(vf::Writer& w) const {
         mg::write_mesh(w, mesh);
@@ -24,6 +26,7 @@ struct Case {
         w.d(bulk), w.d(area_mod), w.d(iso_ratio), w.d(angle_reg), w.d(vt_factor), w.d(max_pressure);
         for (double v : q) w.d(v);
         for (double v : tr) w.d(v);
+        w.u(rough);
         w.nl();
     }
     static Case read(vf::Reader& r) {
@@ -36,6 +39,7 @@ struct Case {
         c.bulk = r.d(), c.area_mod = r.d(), c.iso_ratio = r.d(), c.angle_reg = r.d(), c.vt_factor = r.d(), c.max_pressure = r.d();
         for (double& v : c.q) v = r.d();
         for (double& v : c.tr) v = r.d();
+        if (r.more()) c.rough = (unsigned)r.u();
         return c;
     }
 };
@@ -65,6 +69,7 @@ static rc::Gen<Case> genCase() {
         const double sz = (double)vg::mesh_size(c.mesh);
         const double mag = *rc::gen::element(0.0, 1.0, 10.0, 100.0);
         for (double& v : c.tr) v = *uniform(-1, 1) * mag * sz;
+        if (*irange(0, 2) == 0) c.rough = (unsigned)*irange(1, 1 << 20);
         return c;
     });
 }
@@ -90,6 +95,7 @@ static Built build(const Case& k, const TriMesh& m) {
     // labels follow the triangle of the *input* list: initialisation may flip windings but keeps face slots
     auto& fl = cell_tester::faces(*b.c);
     for (size_t t = 0; t < fl.size() && t < k.labels.size(); t++) cell_tester::face_type(fl[t]) = (unsigned short)k.labels[t];
+    if (k.rough) ct::leave_free_slots(b.c, 3 + (int)(k.rough % 7), k.rough);
     cell_tester::target_volume(*b.c) = b.c->get_volume() * k.vt_factor;
     return b;
 }
@@ -177,6 +183,26 @@ static std::string run(const Case& k, vf::Ctx& ctx) {
     TriMesh m = ct::snapshot(C);
     const auto& fl = cell_tester::faces(C);
     const size_t nn = m.nn();
+    {
+        // unused node slots hold (0,0,0): give them the position of a live node so that no extent / mean of the reference geometry sees them
+        const auto& nlc = cell_tester::nodes(C);
+        size_t live0 = 0;
+        while (live0 < nlc.size() && !nlc[live0].is_used()) live0++;
+        for (size_t i = 0; i < nlc.size() && live0 < nlc.size(); i++)
+            if (!nlc[i].is_used())
+                for (int q = 0; q < 3; q++) m.xyz[3 * i + q] = m.xyz[3 * live0 + q];
+    }
+    std::vector<unsigned> slot_of_tri;  // triangle of the snapshot -> face slot (they differ once the cell has unused face slots)
+    for (auto& t : ct::live_triangles(C)) slot_of_tri.push_back(t[3]);
+    const bool has_free_slots = !cell_tester::free_faces(C).empty() || !cell_tester::free_nodes(C).empty();
+    if (k.rough) {
+        sc = scales(m);
+        if (sc.cond > 1e-5) {
+            ctx.count("skipped_ill_conditioned");
+            return "";
+        }
+        if (has_free_slots) ctx.count("cell_with_unused_slots");
+    }
     refresh(C);
     const ld P = C.get_pressure(), A = C.get_area(), V = C.get_volume();
     const ld A0 = cbrtl((ld)k.iso_ratio * V * V);
@@ -186,7 +212,7 @@ static std::string run(const Case& k, vf::Ctx& ctx) {
         V3 a = m.p(m.tri[3 * t]), bb = m.p(m.tri[3 * t + 1]), c = m.p(m.tri[3 * t + 2]);
         ld ar = vg::tri_area(a, bb, c);
         sumA += ar;
-        tau[t] = (ld)k.tension[cell_tester::face_type(fl[t])] + ((ld)k.area_mod / A0) * (A / A0 - 1);
+        tau[t] = (ld)k.tension[cell_tester::face_type(fl[slot_of_tri[t]])] + ((ld)k.area_mod / A0) * (A / A0 - 1);
         tens_scale += fabsl(tau[t]) * ((bb - a).norm() + (c - a).norm() + (c - bb).norm());
     }
     V3 g = vg::vertex_mean(m);
@@ -333,7 +359,7 @@ static std::string run(const Case& k, vf::Ctx& ctx) {
         }
     }
     // ---------------- covariance under rigid motion
-    {
+    if (!k.rough) {
         vg::Motion mo;
         mo.q = vg::Quat::from(k.q[0], k.q[1], k.q[2], k.q[3]);
         mo.t = V3(k.tr[0], k.tr[1], k.tr[2]);
